@@ -133,6 +133,10 @@ func ParseData(data []byte) (config Config, err error) {
 					return Config{}, fmt.Errorf("[%s] %s: failed to parse evcode key: %w", name, evcodeRaw, err)
 				}
 
+				if _, ok := midiMappingTmp[evcode]; ok {
+					return Config{}, fmt.Errorf("[%s] %s: key defined more than once", name, evcodeRaw)
+				}
+
 				noteAndOffset := strings.Split(valueRaw, ",")
 				var noteRaw, offsetRaw string
 				switch len(noteAndOffset) {
@@ -172,6 +176,9 @@ func ParseData(data []byte) (config Config, err error) {
 			}
 
 			if len(midiMappingTmp) > 0 {
+				if _, ok := midiMapping[subMapping.SubHandler]; ok {
+					return Config{}, fmt.Errorf("[%s] more than one keys section for subhandler \"%s\"", name, subMapping.SubHandler)
+				}
 				midiMapping[subMapping.SubHandler] = midiMappingTmp
 			}
 		}
@@ -188,6 +195,10 @@ func ParseData(data []byte) (config Config, err error) {
 				evcode, err := TomlKeyToEvCode(evcodeRaw, evdev.ABSFromString)
 				if err != nil {
 					return Config{}, fmt.Errorf("[%s] %s: failed to parse evcode key: %w", name, evcodeRaw, err)
+				}
+
+				if _, ok := analogMappingTmp[evcode]; ok {
+					return Config{}, fmt.Errorf("[%s] %s: axis defined more than once", name, evcodeRaw)
 				}
 
 				mappingType := MappingType(analog.Type)
@@ -315,9 +326,15 @@ func ParseData(data []byte) (config Config, err error) {
 				if err != nil {
 					return Config{}, fmt.Errorf("[deadzones] %w", err)
 				}
+				if _, ok := deadzonesTmp[evcode]; ok {
+					return Config{}, fmt.Errorf("[deadzones] %s: axis defined more than once", evcodeRaw)
+				}
 				deadzonesTmp[evcode] = value
 			}
 
+			if _, ok := analogMapping[subMapping.SubHandler]; ok {
+				return Config{}, fmt.Errorf("[%s] more than one analog section for subhandler \"%s\"", name, subMapping.SubHandler)
+			}
 			analogMapping[subMapping.SubHandler] = analogMappingTmp
 			deadzones[subMapping.SubHandler] = deadzonesTmp
 			defaultDeadzone[subMapping.SubHandler] = subMapping.DefaultDeadzone
@@ -341,6 +358,9 @@ func ParseData(data []byte) (config Config, err error) {
 		action := Action(actionRaw)
 		if !SupportedActions[action] {
 			return Config{}, fmt.Errorf("[actions] unsupported action: %s", action)
+		}
+		if _, ok := actionMapping[evcode]; ok {
+			return Config{}, fmt.Errorf("[actions] %s: key defined more than once", evcodeRaw)
 		}
 		actionMapping[evcode] = action
 	}
